@@ -2,12 +2,13 @@ import GoCrypt.Driver.State
 import GoCrypt.Driver.Parse
 import GoCrypt.Driver.Dispatch
 import GoCrypt.Driver.Base64
+import GoCrypt.Driver.Codec
 
 /-! Line-protocol driver: one operation per line in, one result line out. Core-only (links as an exe). -/
 
 open GoCrypt.Driver
 
-def handlers : List Handler := [pureHandler handleParse, handleDispatch, pureHandler handleBase64]
+def handlers : List Handler := [pureHandler handleParse, handleDispatch, pureHandler handleBase64, handleCodec]
 
 def step (st : DState) (line : String) : DState × String :=
   let ws := (line.trimAscii.toString.splitOn " ").filter (· ≠ "")
